@@ -355,6 +355,57 @@ func TestC04(t *testing.T) {
 				}
 			}
 		}
+		// operator grid: every binary operator on captured operands of every
+		// numeric type pairing, over a grid of extreme and ordinary values (the
+		// only runtime errors allowed are the statement's checked conditions)
+		if shard == 0 {
+			ints := []string{"0", "1", "-1", "2", "-2", "3", "7", "63", "64", "65", "-64", "9223372036854775807", "-9223372036854775808"}
+			floats := []string{"0.0", "1.0", "-1.0", "0.5", "-2.5", "64.0", "-64.0", "1000000000000000000000.0", "0.000001"}
+			arith := []string{"+", "-", "*", "/", "%", "**", "<<", ">>", "&", "|", "^"}
+			cmp := []string{"<", "<=", ">", ">=", "==", "!="}
+			type side struct{ re, ref string }
+			iS, fS := side{`(-?\d+)`, "int"}, side{`(-?\d+\.\d+)`, "float"}
+			for _, pair := range [][2]side{{iS, iS}, {fS, fS}, {iS, fS}, {fS, iS}} {
+				var lines []vstat.Q
+				lv, rv := ints, ints
+				if pair[0].ref == "float" {
+					lv = floats
+				}
+				if pair[1].ref == "float" {
+					rv = floats
+				}
+				for _, a := range lv {
+					for _, b := range rv {
+						lines = append(lines, vstat.Q(a+" "+b))
+					}
+				}
+				for _, op := range append(append([]string{}, arith...), cmp...) {
+					isCmp := strings.ContainsAny(op, "<>=!") && op != "<<" && op != ">>"
+					if !isCmp && (op == "<<" || op == ">>" || op == "&" || op == "|" || op == "^") && (pair[0].ref == "float" || pair[1].ref == "float") {
+						continue // bitwise operators on floats: open finding C04-6, covered by its probe
+					}
+					var src string
+					if isCmp {
+						src = "counter n\n/^" + pair[0].re + " " + pair[1].re + "$/ && $1 " + op + " $2 {\n  n++\n}\n"
+					} else {
+						src = "gauge x\n/^" + pair[0].re + " " + pair[1].re + "$/ {\n  x = $1 " + op + " $2\n}\n"
+					}
+					c := c04Case{Src: vstat.Q(src), Lines: lines}
+					f, res := runC04(c)
+					st.Eval()
+					st.Class("operator-grid")
+					if res.accepted {
+						st.NonTrivial(src, c04Case{Src: vstat.Q(src), Lines: lines[:3]})
+					}
+					if f != nil {
+						st.Violate(t, f, c, "operator-grid")
+						if t.Failed() {
+							return
+						}
+					}
+				}
+			}
+		}
 		feats := gen.AllFeatures()
 		feats.MixedWrites, feats.StringNumberCompare, feats.NonBoolCond, feats.Unary, feats.TimeBuiltins = true, true, true, true, true
 		feats.BoolInArith = true
